@@ -1,5 +1,6 @@
 from __future__ import annotations
 
+import re
 import warnings
 from numbers import Number
 from typing import Union, List, Dict, Tuple
@@ -24,6 +25,7 @@ from Solverz.equation.jac import Jac, JacBlock
 
 class Equations:
     _has_time = False  # True if the generated functions take the time t as an argument
+    _has_prev_step = False  # True if the generated functions take the previous-step vectors y_0, y_1, ... as arguments
 
     def __init__(self,
                  eqn: Union[List[Eqn], Eqn],
@@ -58,6 +60,13 @@ class Equations:
         if self._has_time and 't' in eqn.SYMBOLS:
             # the generated F_(t, y_, p_) binds `t` to time, a symbol of that name would shadow it
             raise ValueError(f"Symbol name t in equation {eqn.name} is reserved for time in {type(self).__name__}!")
+        if self._has_prev_step:
+            # the generated F_(t, y_, p_, y_0, ...) binds `y_0`, `y_1`, ... to the previous-step vectors, the declaration
+            # `y_0 = y_[...]` of a symbol of that name would replace them before the alias variables are sliced
+            for name in eqn.SYMBOLS:
+                if re.fullmatch(r'y_[0-9]+', name):
+                    raise ValueError(
+                        f"Symbol name {name} in equation {eqn.name} is reserved for the previous-step vector in {type(self).__name__}!")
         self.EQNs.update({eqn.name: eqn})
         self.SYMBOLS.update(eqn.SYMBOLS)
         self.a.add(eqn.name)
@@ -322,6 +331,7 @@ class AE(Equations):
 
 class FDAE(AE):
     _has_time = True
+    _has_prev_step = True
 
     def __init__(self,
                  eqn: Union[List[Eqn], Eqn],
